@@ -299,10 +299,16 @@ def c13_trackers(out, tier, seed):
 def replay_trackers(model, init, steps, m, p, k, which):
     import random
     rnd = random.Random(11)
-    cands = [([fnum(zval(model, x.z())) for c in init for x in c],
-              [[fnum(zval(model, x.z())) for c in st for x in c] for st in steps])]
+    cands = []
+    if model is not None:
+        cands.append(([fnum(zval(model, x.z())) for c in init for x in c],
+                      [[fnum(zval(model, x.z())) for c in st for x in c] for st in steps]))
     for j in range(4):
         cands.append(([0.0] * (m * p), [[round(rnd.uniform(-2, 2), 2) + 3.0 * ci for ci in range(m) for _ in range(p)]
+                                        for _ in range(k)]))
+    for j in range(3):  # small-scale parameters (an absolute fudge term in a ratio of variances shows only here)
+        sc = [1e-3, 2.0 ** -12, 1e-2][j]
+        cands.append(([0.0] * (m * p), [[sc * (round(rnd.uniform(-2, 2), 2) + 1.5 * ci) for ci in range(m) for _ in range(p)]
                                         for _ in range(k)]))
     if which in ("p_accept", "multi_p_accept"):  # repeats of the initial state followed by moves, and moves followed by repeats
         base = [1.0 + i for i in range(m * p)]
@@ -416,6 +422,51 @@ def decide(eng, ctx, cond):
     if r2 == "unsat":
         return False
     return None
+
+
+def c12_autocov_bf(out, tier, seed):
+    """autocov_bf on its own (no branching): every column's autocovariance is that column's, for more columns than any
+    ESS configuration explores (the Geyer loop forks per parameter)."""
+    eng = mir_load.load_engine()
+    sizes = [(3, 6), (2, 9)] + ([(4, 5), (3, 13), (1, 3)] if tier == "thorough" else [])
+    u = MUnit(out, "C12", "c12_autocov_bf", eng, functions=["stats::autocov_bf (+ closure)"],
+              bounds=["(draws, parameters) in %s; every entry an arbitrary real" % (sizes,)],
+              assumptions=R_ASSUME + ["rayon's for_each over axis iterators visits every item once (its contract)"],
+              out_of_scope=["the FFT path", "f32 rounding"])
+    mirsym.MUL_MODE["mode"] = "uf"
+    try:
+        for (n, p) in sizes:
+            def run(ctx, n=n, p=p):
+                xs = [ctx.fresh_real("x") for _ in range(n * p)]
+                r = eng.call_fn("autocov_bf", [ND(obj_array(xs, (n, p)))])
+                return xs, r
+            for ctx, res in eng.explore(run, max_paths=20):
+                u.paths += 1
+                if isinstance(res, Exception):
+                    out.inconclusive.append("c12_autocov_bf %s: %r" % ((n, p), res))
+                    continue
+                xs, r = res
+                arr = np.array(xs, dtype=object).reshape(n, p)
+                inst = "draws=%d params=%d" % (n, p)
+                ok = tuple(r.a.shape) == (n, p)
+                def rp(model, n=n, p=p):
+                    last = (False, {})
+                    for d in range(p - 1, -1, -1):  # ESS through the public API on the brute-force path, parameter by parameter
+                        last = replay_ess_factory(2, max(2 * n, 8), p, d, None)(model)
+                        if last[0]:
+                            return last
+                    return last
+                u.holds(ctx, "autocovariance table has one row per lag and one column per parameter", ok, rp, inst)
+                if not ok:
+                    continue
+                for d in range(p):
+                    spec = spec_autocov([arr[t, d] for t in range(n)])
+                    for lag in range(n):
+                        u.equal(ctx, "autocovariance of parameter d at lag t is sum_s (x_s - mean)(x_{s+t} - mean) / n of that parameter's own draws",
+                                r.a[lag, d], spec[lag], rp, inst)
+    finally:
+        mirsym.MUL_MODE["mode"] = "exact"
+    u.done()
 
 
 def c12_ess(out, tier, seed):
